@@ -1,7 +1,7 @@
 (* SelectText.v — C04: the token view of a flat SQLite statement flattens to exactly the text of the statement model
    (Query.str_query), for every flat statement (any number of items, sources, joins). *)
 From PV Require Import Base Crit gen.TermsTable Terms Page gen.QueryTable Query Parse lemmas.ParseMono lemmas.ParsePrint.
-From PV Require Import C02Model C02Expected C02Frag lemmas.C02Lemmas lemmas.C02Final gen.C04Table Select lemmas.SelectLemmas.
+From PV Require Import C02Model C02Frag lemmas.C02Lemmas lemmas.C02Final gen.C04Table Select lemmas.SelectLemmas.
 From Coq Require Import Lia Arith.
 Local Open Scope string_scope.
 
